@@ -52,18 +52,19 @@ def packInts : List Int → Option (List Nat)
     | some a, some b => some (a ++ b)
     | _, _ => none
 
+/-- concatenation of two `bytes` results; `none` (struct.error) propagates.  (A separate function rather than a
+    `match` on the `pack` call: proofs can then rewrite the `pack` call without the kernel evaluating it.) -/
+def cat2 (a b : Option (List Nat)) : Option (List Nat) :=
+  match a, b with
+  | some a, some b => some (a ++ b)
+  | _, _ => none
+
 /-- `get_raw()` -/
 def Item.raw : Item → Option (List Nat)
   | .insn _ x => encode x
-  | .packed size fk ts =>
-    match pack [.H, .H, .i] [0x0100, size, fk], packInts ts with
-    | some a, some b => some (a ++ b) | _, _ => none
-  | .sparse size ks ts =>
-    match pack [.H, .H] [0x0200, size], packInts ks, packInts ts with
-    | some a, some b, some c => some (a ++ b ++ c) | _, _, _ => none
-  | .fill w size data =>
-    match pack [.H, .H, .I] [0x0300, w, size] with
-    | some a => some (a ++ data) | none => none
+  | .packed size fk ts => cat2 (pack [.H, .H, .i] [0x0100, size, fk]) (packInts ts)
+  | .sparse size ks ts => cat2 (cat2 (pack [.H, .H] [0x0200, size]) (packInts ks)) (packInts ts)
+  | .fill w size data => cat2 (pack [.H, .H, .I] [0x0300, w, size]) (some data)
 
 /-- `n` times `packer["l"].unpack(buff[idx:idx+4])`, `idx += 4`; `none` = struct.error -/
 def readInts : Nat → List Nat → Option (List Int)
